@@ -13,6 +13,67 @@ import time
 VERIF = os.path.dirname(os.path.dirname(os.path.abspath(__file__)))
 
 
+def stored_patches():
+    """Every stored blind seeded change (seeded/<name>/patch.diff: must be reported) and every stored blind benign rewrite
+    (benign/<set>/benign_k.diff with the properties listed in benign/sets.json: must pass) as further self-test entries."""
+    import glob
+    out = []
+    for mf in sorted(glob.glob(os.path.join(VERIF, "seeded", "*", "meta.json"))):
+        meta = json.load(open(mf))
+        out.append({"id": meta["name"], "prop": meta["breaks_property"], "expect": "violation", "patch": os.path.join(os.path.dirname(mf), "patch.diff"),
+                    "why": "stored blind seeded change"})
+    sets = os.path.join(VERIF, "benign", "sets.json")
+    if os.path.exists(sets):
+        for name, props in json.load(open(sets)).items():
+            for pf in sorted(glob.glob(os.path.join(VERIF, "benign", name, "benign_*.diff"))):
+                if os.path.getsize(pf) == 0:
+                    continue
+                for pr in props:
+                    out.append({"id": "%s/%s" % (name, os.path.basename(pf)[7:-5]), "prop": pr, "expect": "pass", "patch": pf, "why": "stored blind benign rewrite"})
+    return out
+
+
+def _one(m, repo, tier):
+    sc = tempfile.mkdtemp(prefix="vfself_")
+    t0 = time.time()
+    try:
+        shutil.copytree(os.path.join(repo, "qucumber"), os.path.join(sc, "qucumber"))
+        r = subprocess.run(["patch", "-p1", "-s", "-i", m["patch"]], cwd=sc, capture_output=True, text=True)
+        if r.returncode != 0:
+            return (m["id"], m["prop"], m["expect"], "PATCH-DOES-NOT-APPLY", 0.0, False)
+        env = dict(os.environ, QUCUMBER_REPO=sc, VF_EVIDENCE_DIR=os.path.join(sc, "ev"), VF_REPLAY_DIR=os.path.join(sc, "replay"))
+        r = subprocess.run([os.path.join(VERIF, "vf"), "check", m["prop"], "--tier", tier], env=env, capture_output=True, text=True, timeout=3600)
+        viol = [l for l in r.stdout.splitlines() if l.startswith("VIOLATION")]
+        proved = [l for l in viol if "bounded-driver" not in l]
+        if m["expect"] == "violation":
+            ok = r.returncode == 1 and bool(viol)
+            got = "VIOLATION x%d (%d by obligations)" % (len(viol), len(proved)) if viol else "exit %d, no violation" % r.returncode
+        else:
+            ok = r.returncode == 0 and not viol
+            got = "exit %d%s" % (r.returncode, (" " + viol[0][:120]) if viol else "")
+        if not ok:
+            got = "UNEXPECTED: " + got
+        return (m["id"], m["prop"], m["expect"], got, time.time() - t0, ok)
+    finally:
+        shutil.rmtree(sc, ignore_errors=True)
+
+
+def stored(only=None, tier="quick", jobs=6):
+    """`vf selftest --stored`: the stored seeded changes and benign rewrites, in parallel."""
+    from concurrent.futures import ThreadPoolExecutor
+    repo = os.environ.get("QUCUMBER_REPO", "/repo")
+    ms = stored_patches()
+    if only:
+        ms = [m for m in ms if any(m["id"].startswith(o) or m["prop"] == o for o in only.split(","))]
+    bad = 0
+    with ThreadPoolExecutor(jobs) as ex:
+        for row in ex.map(lambda m: _one(m, repo, tier), ms):
+            print("%-12s %-4s expect=%-9s %s  (%.0fs)" % row[:5], flush=True)
+            bad += 0 if row[5] else 1
+    print("selftest (stored patches): %d entries, %d unexpected" % (len(ms), bad))
+    return 1 if bad else 0
+
+
 def main(only=None, tier="quick"):
     repo = os.environ.get("QUCUMBER_REPO", "/repo")
     muts = json.load(open(os.path.join(VERIF, "mutants", "mutants.json")))["mutants"]
